@@ -470,7 +470,12 @@ def _run(case, cfg, w):
                 if pe.pings > pings0:
                     break
                 w.advance(1.0)
-            w.advance(3.5)
+            # (one more frame from the client - not a PONG - keeps the
+            # asyncio server's reader, which gives up after ping_interval +
+            # ping_timeout without any frame, from noticing first)
+            w.advance(2.9)
+            pe.send_pkt(sio.EVENT, ns, None, ['nobody-listens-to-this'])
+            w.advance(0.6)
             w.rec.count('fault.half_open')
             w.rec.count('fault.clock_jump')
             late = [(i, t) for i, t in sorted(outstanding.get(sid, {}).items())
